@@ -287,6 +287,7 @@ pub fn resolve_inputs(spec: &str, seed: u64) -> Vec<Input> {
             "fam" => out.extend(family_inputs(f[2], f[1])),
             "ctl" => out.extend(control_inputs(f[1])),
             "ops" => out.extend(operator_inputs()),
+            "dupimp" => out.extend(duplicate_import_inputs(seed, f[1].parse().unwrap())),
             "par" => out.extend(parallel_inputs(seed, f[1].parse().unwrap())),
             "proposals" => out.extend(proposal_inputs(seed, f[1].parse().unwrap())),
             "cust" => out.extend(custom_layout_inputs(f[1])),
@@ -1074,11 +1075,19 @@ pub fn valid_cases(inp: &Input) -> Vec<Value> {
 
 /// evenly spaced sample of at most n inputs
 pub fn sample(inputs: Vec<Input>, n: usize) -> Vec<Input> {
-    if n == 0 || inputs.len() <= n {
+    // only the (large) TLC-enumerated families are thinned out; every other source is kept whole
+    if n == 0 {
         return inputs;
     }
-    let step = inputs.len() as f64 / n as f64;
-    (0..n).map(|k| inputs[(k as f64 * step) as usize].clone()).collect()
+    let (fam, rest): (Vec<Input>, Vec<Input>) = inputs.into_iter().partition(|i| i.source.starts_with("fam:"));
+    let mut out = rest;
+    if fam.len() <= n {
+        out.extend(fam);
+    } else {
+        let step = fam.len() as f64 / n as f64;
+        out.extend((0..n).map(|k| fam[(k as f64 * step) as usize].clone()));
+    }
+    out
 }
 
 // ---- parallel vs serial (C09) -------------------------------------------------------------------
@@ -1384,4 +1393,100 @@ pub fn dwarf_case(inp: &Input, version: u16, spanning: bool, variant: &str) -> O
         "out_valid": absmod::validate(&em.bytes).is_ok(),
         "in_layout": crate::dwarf::layout(&inm), "out_layout": crate::dwarf::layout(&outm), "fmap": fmap,
         "in_rows": norm_rows(in_rows), "out_rows": norm_rows(out_rows), "in_subs": norm_subs(in_subs), "out_subs": norm_subs(out_subs)}))
+}
+
+/// small modules whose imports share (module, field) names -- legal wasm, and the shape in which "the import of this
+/// function" and "the import with this name" are different things
+pub fn duplicate_import_inputs(seed: u64, n: u64) -> Vec<Input> {
+    use crate::gen::*;
+    use crate::optable::T;
+    use rand::Rng;
+    use wasm_encoder::Instruction as I;
+    let mut out = vec![];
+    for k in 0..n {
+        let mut r = gen::rng(seed.wrapping_mul(977).wrapping_add(k));
+        let mut d = Desc::default();
+        d.types.push(Sig { params: vec![], results: vec![] });
+        d.types.push(Sig { params: vec![T::I32], results: vec![T::I32] });
+        let nimp = r.gen_range(2..5);
+        let global_first = r.gen_bool(0.4);
+        if global_first {
+            d.globals.push(GlobalD { ty: T::I32, mutable: false, imported: true, init: None });
+            d.imports.push(Imp { module: "env".into(), field: "f".into(), kind: ImpKind::Global(0) });
+        }
+        for _ in 0..nimp {
+            let ty = r.gen_range(0..2);
+            d.funcs.push(FuncD { ty, imported: true });
+            let field = if r.gen_bool(0.8) { "f".to_string() } else { "g".to_string() };
+            d.imports.push(Imp { module: "env".into(), field, kind: ImpKind::Func(d.funcs.len() as u32 - 1) });
+        }
+        // one local function that calls every imported one, exported; and exports of some imports
+        d.funcs.push(FuncD { ty: 0, imported: false });
+        let mut ins = vec![];
+        for f in 0..nimp {
+            if d.funcs[f as usize].ty == 0 {
+                ins.push(I::Call(f));
+            } else {
+                ins.push(I::I32Const(f as i32));
+                ins.push(I::Call(f));
+                ins.push(I::Drop);
+            }
+        }
+        if global_first {
+            ins.push(I::GlobalGet(0));
+            ins.push(I::Drop);
+        }
+        ins.push(I::End);
+        d.bodies.push(BodyD { locals: vec![], instrs: ins });
+        d.exports.push(ExportD { name: "run".into(), kind: wasm_encoder::ExportKind::Func, idx: nimp });
+        if r.gen_bool(0.5) {
+            d.exports.push(ExportD { name: "imp".into(), kind: wasm_encoder::ExportKind::Func, idx: r.gen_range(0..nimp) });
+        }
+        out.push(Input { id: format!("dupimp-{}", k), bytes: d.encode(), source: format!("dupimp:{}:{}", seed, k) });
+    }
+    out
+}
+
+// ---- execution (C01, C06) -------------------------------------------------------------------------
+
+pub fn exec_case(inp: &Input, gc_runs: u32) -> Option<Value> {
+    use rand::Rng;
+    let cfg = Cfg { probe: true, ..Default::default() };
+    let rt = run::roundtrip(&inp.bytes, &cfg, gc_runs);
+    if rt.outcome != "ok" {
+        return Some(json!({"id": format!("{}~gc{}", inp.id, gc_runs), "source": inp.source, "skip": false, "outcome": rt.outcome}));
+    }
+    let in_tags = |i: u32| format!("f{}", i);
+    let sigma = rt.sigma.func.clone();
+    let out_tags = move |j: u32| match sigma.iter().position(|x| *x == j as i32) {
+        Some(i) => format!("f{}", i),
+        None => format!("new{}", j),
+    };
+    let gsigma = rt.sigma.global.clone();
+    let in_gtag = |i: u32| i as i64;
+    let out_gtag = move |j: u32| gsigma.iter().position(|x| *x == j as i32).map(|i| i as i64).unwrap_or(900 + j as i64);
+    let inp_prog = crate::execproj::project(&inp.bytes, &in_tags, &in_gtag)?;
+    let out_prog = crate::execproj::project(&rt.out, &out_tags, &out_gtag)?;
+    // calls: exported local functions, small arguments, state carries over between calls
+    let mut r = gen::rng(u64::from_str_radix(&absmod::fnv(inp.id.as_bytes()), 16).unwrap_or(1));
+    let funcs = inp_prog["funcs"].as_array().unwrap();
+    let callable: Vec<(String, usize)> = inp_prog["exports"].as_array().unwrap().iter()
+        .filter(|e| e["kind"] == "func" && !funcs[e["idx"].as_u64().unwrap() as usize]["imported"].as_bool().unwrap())
+        .map(|e| (e["name"].as_str().unwrap().to_string(), funcs[e["idx"].as_u64().unwrap() as usize]["np"].as_u64().unwrap() as usize))
+        .collect();
+    // every exported local function is called (twice, different arguments), in a random order
+    let mut calls = vec![];
+    for round in 0..2 {
+        let mut order: Vec<usize> = (0..callable.len()).collect();
+        for i in (1..order.len()).rev() {
+            order.swap(i, r.gen_range(0..=i));
+        }
+        for k in order.into_iter().take(6) {
+            let (name, np) = &callable[k];
+            let args: Vec<i64> = (0..*np).map(|_| *[0i64, 1, 2, 3, 7, 64, 255, 1000].iter().nth(r.gen_range(0..8)).unwrap()).collect();
+            calls.push(json!({"name": name, "args": args, "round": round}));
+        }
+    }
+    Some(json!({"id": format!("{}~gc{}", inp.id, gc_runs), "source": inp.source, "skip": false, "outcome": "ok", "inp": inp_prog, "outp": out_prog, "calls": calls, "fuel": 40,
+                "lenient_inst": gc_runs > 0}))
 }
